@@ -24,7 +24,11 @@ class FortranObj:
         self.parent = parent_obj
 
     def add_doc(self, doc_str: str):
-        self.doc_str = doc_str
+        # An entity can be documented before ("!>") and after ("!!", "!<")
+        if self.doc_str:
+            self.doc_str = f"{self.doc_str}\n{doc_str}"
+        else:
+            self.doc_str = doc_str
 
     def update_fqsn(self, enc_scope=None):
         return None
